@@ -305,7 +305,7 @@ class Product:
         # transform tablefile
         if utils.isRealFilename(self.tablefile) and os.path.isabs(self.tablefile):
             if utils.isRealFilename(self.db) and \
-                 self.tablefile.startswith(self.db):
+                 self.tablefile.startswith(self.db+sl):
                 if self.ups_dir is None:
                     self.ups_dir = os.path.join("$UPS_DB",
                                os.path.dirname(self.tablefile)[len(self.db)+1:])
